@@ -655,6 +655,9 @@ func (a *asset) consolidateAsset(logger *slog.Logger) error {
 func (a *asset) getRefSegMeta(nrOrTime int, cfg *ResponseConfig, nowMS int) (ref segMeta, err error) {
 	switch cfg.liveMPDType() {
 	case segmentNumber, timeLineNumber:
+		if nrOrTime > math.MaxUint32 { // sequence numbers are 32 bits: no such segment, and no alias of nrOrTime mod 2^32
+			return ref, errNotFound
+		}
 		nr := uint32(nrOrTime)
 		if nr < uint32(cfg.getStartNr()) {
 			return ref, errNotFound
